@@ -112,28 +112,33 @@ class BooleanExpression(Expression):
         )
 
     def __str__(self) -> str:
-        def _str(expression: Expression, parent_precedence: int) -> str:
+        # `and` and `or` have equal precedence and are right associative, and
+        # `not` applies to everything that follows it. So a logical expression
+        # appearing as a left-hand operand always needs parentheses.
+        def _str(
+            expression: Expression, parent_precedence: int, *, left: bool = False
+        ) -> str:
             if isinstance(expression, LogicalAndExpression):
                 precedence = PRECEDENCE_LOGICAL_AND
                 op = "and"
-                left = _str(expression.left, precedence)
-                right = _str(expression.right, precedence)
+                left_str = _str(expression.left, precedence, left=True)
+                right_str = _str(expression.right, precedence)
             elif isinstance(expression, LogicalOrExpression):
                 precedence = PRECEDENCE_LOGICAL_OR
                 op = "or"
-                left = _str(expression.left, precedence)
-                right = _str(expression.right, precedence)
+                left_str = _str(expression.left, precedence, left=True)
+                right_str = _str(expression.right, precedence)
             elif isinstance(expression, LogicalNotExpression):
                 operand_str = _str(expression.right, PRECEDENCE_PREFIX)
                 expr = f"not {operand_str}"
-                if parent_precedence > PRECEDENCE_PREFIX:
+                if left or parent_precedence > PRECEDENCE_PREFIX:
                     return f"({expr})"
                 return expr
             else:
                 return str(expression)
 
-            expr = f"{left} {op} {right}"
-            if precedence < parent_precedence:
+            expr = f"{left_str} {op} {right_str}"
+            if left or precedence < parent_precedence:
                 return f"({expr})"
             return expr
 
